@@ -378,11 +378,23 @@ theorem flag_sync (cfg : Cfg) (s : State) (h : Hnd) (fail : Bool) (hf : AllFlag 
 
 theorem flagOK_expire (cfg : Cfg) (o : Inst) : FlagOK cfg (expireInst o) := flagOK_clean _ _ rfl rfl
 
+theorem allFlag_evictOthers (cfg : Cfg) (s : State) (h : Hnd) (cls : Cls) (id : Id) (hf : AllFlag cfg s) :
+    AllFlag cfg (evictOthers s h cls id) := by
+  intro k ok hk
+  simp only [evictOthers] at hk
+  by_cases hkh : k = h
+  · simp only [hkh, if_true] at hk; exact hf h ok hk
+  · simp only [hkh, if_false, Option.map_eq_some_iff] at hk
+    obtain ⟨o2, ho2, rfl⟩ := hk
+    split
+    · exact flagOK_of_eq _ o2 _ (hf k o2 ho2) rfl rfl rfl
+    · exact hf k o2 ho2
+
 theorem flag_expire (cfg : Cfg) (s : State) (h : Hnd) (hf : AllFlag cfg s) : AllFlag cfg (opExpire s h).1 := by
   unfold opExpire
   split
   · exact hf
-  · exact allFlag_setObj _ _ _ _ hf (flagOK_expire _ _)
+  · exact allFlag_setObj _ _ _ _ (allFlag_evictOthers _ _ _ _ _ hf) (flagOK_expire _ _)
 
 theorem flag_expireAll (cfg : Cfg) (s : State) (only : Option Cls) (hf : AllFlag cfg s) :
     AllFlag cfg (opExpireAll s only).1 := by
@@ -399,7 +411,8 @@ theorem flag_destroy (cfg : Cfg) (s : State) (h : Hnd) (hf : AllFlag cfg s) : Al
   split
   · exact hf
   · rename_i o ho
-    exact allFlag_setObj _ _ _ _ (allFlag_congr _ s _ hf rfl) (flagOK_of_eq _ o _ (hf h o ho) rfl rfl rfl)
+    exact allFlag_setObj _ _ _ _ (allFlag_evictOthers _ _ _ _ _ (allFlag_congr _ s _ hf rfl))
+      (flagOK_of_eq _ o _ (hf h o ho) rfl rfl rfl)
 
 theorem flag_pickle (cfg : Cfg) (s : State) (h : Hnd) (fail : Bool) (hf : AllFlag cfg s) :
     AllFlag cfg (opPickle cfg s h fail).1 := by
@@ -932,12 +945,43 @@ theorem inv_sync (cfg : Cfg) (s : State) (h : Hnd) (fail : Bool)
       · simp only [hlz, Bool.true_and, Bool.not_eq_true'] at hc
         simpa using hc
 
+theorem inv_evictOthers (cfg : Cfg) (s : State) (h : Hnd) (cls : Cls) (id : Id) (hinv : OrmValInv cfg s) :
+    OrmValInv cfg (evictOthers s h cls id) := by
+  have key : ∀ k o', (evictOthers s h cls id).objs k = some o' →
+      ∃ o2, s.objs k = some o2 ∧ o'.cls = o2.cls ∧ o'.id = o2.id ∧ o'.obsolete = o2.obsolete ∧
+        o'.cached = o2.cached ∧ o'.pending = o2.pending ∧ o'.dirty = o2.dirty := by
+    intro k o' hk
+    simp only [evictOthers] at hk
+    by_cases hkh : k = h
+    · simp only [hkh, if_true] at hk; exact ⟨o', by rw [hkh]; exact hk, rfl, rfl, rfl, rfl, rfl, rfl⟩
+    · simp only [hkh, if_false, Option.map_eq_some_iff] at hk
+      obtain ⟨o2, ho2, rfl⟩ := hk
+      refine ⟨o2, ho2, ?_⟩
+      split <;> simp
+  constructor
+  · intro k o' hk hl
+    obtain ⟨o2, ho2, hc, hi, hob, hca, hpe, _⟩ := key k o' hk
+    have hv := hinv.val k o2 ho2 (by rw [← hob]; exact hl)
+    exact ⟨by rw [hc, hi]; exact hv.rowExists, by rw [hc, hi, hca, hpe]; exact hv.cachedOk⟩
+  · intro k o' hk
+    obtain ⟨o2, ho2, hc, hi, hob, hca, hpe, hdi⟩ := key k o' hk
+    exact flagOK_of_eq cfg o2 o' (hinv.flag k o2 ho2) hc hdi hpe
+  · intro k k' o1 o2 hk hk' hl hl' hc hi
+    obtain ⟨p1, hp1, hc1, hi1, hob1, _⟩ := key k o1 hk
+    obtain ⟨p2, hp2, hc2, hi2, hob2, _⟩ := key k' o2 hk'
+    exact hinv.uniq k k' p1 p2 hp1 hp2 (by rw [← hob1]; exact hl) (by rw [← hob2]; exact hl')
+      (by rw [← hc1, ← hc2]; exact hc) (by rw [← hi1, ← hi2]; exact hi)
+
+theorem evictOthers_self (s : State) (h : Hnd) (cls : Cls) (id : Id) : (evictOthers s h cls id).objs h = s.objs h := by
+  simp [evictOthers]
+
 theorem inv_expire (cfg : Cfg) (s : State) (h : Hnd) (hinv : OrmValInv cfg s) : OrmValInv cfg (opExpire s h).1 := by
   unfold opExpire
   split
   · exact hinv
   · rename_i o ho
-    refine inv_replace cfg s _ h o _ hinv ho rfl rfl rfl id (fun c i hne => absurd rfl hne) (flagOK_expire _ _) ?_
+    refine inv_replace cfg (evictOthers s h o.cls o.id) _ h o _ (inv_evictOthers _ _ _ _ _ hinv)
+      (by rw [evictOthers_self]; exact ho) rfl rfl rfl id (fun c i hne => absurd rfl hne) (flagOK_expire _ _) ?_
     intro hl
     refine valOK_sameDb cfg _ o _ (hinv.val h o ho hl) rfl rfl ?_
     intro _ k v row hr hk
@@ -950,7 +994,8 @@ theorem inv_destroy (cfg : Cfg) (s : State) (h : Hnd) (hinv : OrmValInv cfg s) (
   · exact hinv
   · rename_i o ho
     have hl := hlive o ho
-    refine inv_replace cfg s _ h o _ hinv ho rfl rfl rfl (fun hx => by simp at hx) ?_
+    refine inv_replace cfg (evictOthers s h o.cls o.id) _ h o _ (inv_evictOthers _ _ _ _ _ hinv)
+      (by rw [evictOthers_self]; exact ho) rfl rfl rfl (fun hx => by simp at hx) ?_
       (flagOK_of_eq _ o _ (hinv.flag h o ho) rfl rfl rfl) (fun hx => by simp at hx)
     intro c i hne
     obtain ⟨h1, h2⟩ := db_ne_of_setRowDb _ _ _ _ _ _ hne
